@@ -75,12 +75,15 @@ def run_group(crate: str, harnesses: List[str], features: str = '', jobs: int = 
   t0 = time.time()
   timed_out = False
   with open(log, 'w') as f:
+    import signal
+    proc = subprocess.Popen(cmd, cwd=d, env=env, stdout=f, stderr=subprocess.STDOUT, preexec_fn=_limit_mem(mem_gb), start_new_session=True)
     try:
-      p = subprocess.run(cmd, cwd=d, env=env, stdout=f, stderr=subprocess.STDOUT, timeout=timeout, preexec_fn=_limit_mem(mem_gb))
-      rc = p.returncode
+      rc = proc.wait(timeout=timeout)
     except subprocess.TimeoutExpired:
       timed_out = True; rc = -9
-      subprocess.run(['pkill', 'cbmc'], capture_output=True)
+      try: os.killpg(proc.pid, signal.SIGKILL)      # only this run's process group (cargo, kani-driver, cbmc)
+      except ProcessLookupError: pass
+      proc.wait()
   out = open(log, errors='replace').read()
   res = parse_kani(out, crate, features)
   by = {r.harness: r for r in res}
